@@ -222,3 +222,34 @@ static void c13_rsa_pad(Buf *b, uint32_t h, const uint8_t *mod) {
         tr_end();
     }
 }
+
+/* ---- AES-CMAC through TPM2_MAC and through MAC_Start / SequenceUpdate / SequenceComplete with every chunking ---- */
+static void c13_cmac(Buf *b) {
+    int bits = (int[]){128, 192, 256}[rnd(3)]; uint8_t key[32]; c13_fill(key, bits / 8);
+    Buf t = {0}; b_u16(&t, ALG_SYMCIPHER); b_u16(&t, ALG_SHA256); b_u32(&t, 0x00040452u); b_u16(&t, 0); b_u16(&t, ALG_AES); b_u16(&t, bits); b_u16(&t, 0x003F /* CMAC */); b_u16(&t, 0);
+    cmd_begin(b, ST_SESSIONS, CC_CreatePrimary); b_u32(b, RH_NULL); auth_pw(b, "", 0); b_u16(b, 4 + bits / 8); b_u16(b, 0); b_2b(b, key, bits / 8); b_2b(b, t.p, t.n); b_u16(b, 0); b_u32(b, 0); b_free(&t);
+    Rsp r = run(b);
+    if (r.rc != 0 || r.len < 14) { tr("cmac rc=%u note=nokey bits=%d", r.rc, bits); return; }
+    uint32_t h = g32(r.p + 10);
+    int oneshot = chance(40); int nch = oneshot ? 1 : 1 + rnd(4); char intr[8] = {0}; uint32_t rc = 0; uint32_t sh = 0;
+    tr_begin("cmac bits=%d oneshot=%d", bits, oneshot); trhex("key", key, bits / 8); fprintf(g_tr, " chunks=");
+    uint8_t mac[16]; int have = 0;
+    if (!oneshot) { cmd_begin(b, ST_SESSIONS, 0x15B /* MAC_Start */); b_u32(b, h); auth_pw(b, "", 0); b_u16(b, 0); b_u16(b, ALG_NULL); r = run(b); if (r.rc) rc = r.rc; else sh = g32(r.p + 10); }
+    for (int c = 0; c < nch && !rc; c++) {
+        uint8_t m[200]; int n = (int[]){0, 1, 15, 16, 17, 31, 32, 33, 48, 64, 100}[rnd(11)]; c13_fill(m, n);
+        if (c) fputc(',', g_tr); if (!n) fputc('-', g_tr); for (int i = 0; i < n; i++) fprintf(g_tr, "%02x", m[i]);
+        if (oneshot) { cmd_begin(b, ST_SESSIONS, CC_HMAC /* TPM2_MAC */); b_u32(b, h); auth_pw(b, "", 0); b_2b(b, m, n); b_u16(b, ALG_NULL); r = run(b);
+            if (r.rc) rc = r.rc; else { Rd rd = rsp_params(&r, 0); uint16_t l; const uint8_t *d = r_2b(&rd, &l); if (l == 16) { memcpy(mac, d, 16); have = 1; } } break; }
+        if (c == nch - 1) { cmd_begin(b, ST_SESSIONS, CC_SequenceComplete); b_u32(b, sh); auth_pw(b, "", 0); b_2b(b, m, n); b_u32(b, RH_NULL); r = run(b);
+            if (r.rc) rc = r.rc; else { Rd rd = rsp_params(&r, 0); uint16_t l; const uint8_t *d = r_2b(&rd, &l); if (l == 16) { memcpy(mac, d, 16); have = 1; } } break; }
+        cmd_begin(b, ST_SESSIONS, CC_SequenceUpdate); b_u32(b, sh); auth_pw(b, "", 0); b_2b(b, m, n); r = run(b); if (r.rc) rc = r.rc;
+        int it = rnd(3); intr[c] = '0' + it;
+        if (it == 1) { cmd_begin(b, ST_NO_SESSIONS, CC_ContextSave); b_u32(b, sh); Rsp s = run(b);
+            if (s.rc == 0) { uint8_t *ctx = malloc(s.len); uint32_t cn = s.len - 10; memcpy(ctx, s.p + 10, cn); c13_flush(b, sh);
+                cmd_begin(b, ST_NO_SESSIONS, CC_ContextLoad); b_bytes(b, ctx, cn); Rsp l = run(b); free(ctx); if (l.rc == 0) sh = g32(l.p + 10); else rc = l.rc; } else rc = s.rc; }
+        else if (it == 2) { if (tpm2_suspend_resume(NULL, NULL)) rc = 0xEEEE; }
+    }
+    fprintf(g_tr, " intr=%s rc=%u", intr[0] ? intr : "-", rc); if (have) trhex("mac", mac, 16); tr_end();
+    if (rc && sh) c13_flush(b, sh);
+    c13_flush(b, h);
+}
